@@ -27,7 +27,7 @@ n = len(rows)
 caught_n = sum(1 for r in rows if "**none**" not in r)
 text = f"""## 11. Seeded changes: which checks catch which
 
-Independent sub-agents (six waves; each given only property text — one property, or in the fifth wave all claimed ones plus a set of
+Independent sub-agents (seven waves; each given only property text — one property, or in the fifth and seventh wave all claimed ones plus a set of
 files — and a scratch worktree) produced {n} changes, each with a demonstration that fails with the change and passes without, and
 with the repository's test suite still passing. Each was confirmed here (`tools/seeded_eval.py`: demo with / without the patch in the
 scratch worktree, relevant repository tests with the patch), then applied to `/repo`, the listed quick checks were run, and `/repo`
@@ -69,7 +69,9 @@ collectors and updates; losses/embeddings/target updates/serialisation), verifie
 fixed seeds. Each patch was applied to `/repo`, the listed quick checks were run (`tools/refactor_eval.py`), `/repo` restored.
 Required outcome: every check exits 0. Result: {sum(1 for r in rrows if 'quiet' in r)} of {len(rrows)} quiet. (The first evaluation of R1_2 raised `C01.a` in a
 multi-task plan — a harness error of that hour: `train_uts` was given a multi-task buffer it never routes; fixed in the harness,
-R1 re-run quiet.)
+R1 re-run quiet.) All 16 were run again against the final machinery (refinement oracles of C03 / C07, enlarged tiers); three patches
+(R1_1, R1_2, R7_2) no longer applied to the repaired tree and were rebased by hand onto the later fix commits in scratch worktrees
+(`rebased_note` in their records): again 16 of 16 quiet.
 
 | id | what was restructured | diffstat | checks run : exit | result |
 |---|---|---|---|---|
